@@ -23,6 +23,10 @@ Fixpoint decode_ops (fuel : nat) (l : list Z) : list op :=
     | 12 :: r => OCountClone :: decode_ops f r
     | 13 :: r => OLastClone :: decode_ops f r
     | 14 :: r => ODebug :: decode_ops f r
+    (* 15 / 16: fold / rfold of the iterator itself as the last operation of a history (plain values:
+       what it visits is what a clone's fold visits; the iterator is gone afterwards) *)
+    | 15 :: _ => [OFoldClone]
+    | 16 :: _ => [ORfoldClone]
     | _ => []
     end
   end.
